@@ -24,7 +24,7 @@ Dims == {"a", "b", "c"}                  \* dimensions of the points
 
 Sel    == {"star", "f", "fg", "sum", "pts"}
 Where  == {"none", "eq", "kw", "insub", "insubgb", "insubhaving"}
-GroupB == {"all", "a", "b", "ab", "expr", "none"}
+GroupB == {"all", "a", "b", "ab", "expr", "lossy", "none"}
 Period == {0, 2}
 Ctab   == {"none", "b"}
 Having == {"none", "f"}
@@ -39,6 +39,7 @@ Desc == [sel : Sel, where : Where, gb : GroupB, period : Period, ctab : Ctab, ha
 \* statement does not fix
 Valid(q) ==
   /\ (q.ctab # "none" => q.sel # "star" /\ q.order = "none")              \* crosstab renames the fields
+  /\ (q.gb = "lossy" => q.from = "t")
   /\ (q.order = "a_time" => q.gb \in {"all", "a", "ab"} /\ q.from \in {"t", "sub_ab"})  \* the sort key exists
   /\ (q.from # "t" => q.where \in {"none", "eq"} /\ q.sel # "pts")
   /\ (q.from = "sub_a" => q.gb \in {"all", "a", "none"} /\ q.where = "none")
@@ -57,6 +58,7 @@ GbParams(gb, avail) == CASE gb = "all" -> avail
                          [] gb = "b" -> {"b"} \cap avail
                          [] gb = "ab" -> {"a", "b"} \cap avail
                          [] gb = "expr" -> {}              \* CONCAT('_', a, b) is not one-to-one
+                         [] gb = "lossy" -> {}             \* SUBSTR(b, 0, 1): several values of b share a group
                          [] gb = "none" -> {}
 InnerParams(q, tg) ==
   CASE q.from = "t" -> GbParams(q.gb, TableDims(tg))
